@@ -59,3 +59,76 @@ def layouts(t, dim_pair=(0, 1)):
     if t.dim() >= 2:
         a, b = dim_pair
         yield "transposed-dense", t.transpose(a, b).contiguous().transpose(a, b)
+
+
+# ---------------------------------------------------------------------------------------------------------------
+# 6. object lifecycle (round 5): the object that reaches the call is rarely the one the constructor returned - data
+#    loader workers and DDP pickle it, training scripts deepcopy it, checkpoints go through state_dict /
+#    torch.save.  Every variant below must behave exactly like ``make()``.
+def lifecycle_variants(make, used=None, kinds=None):
+    """Yields (name, object).  ``make()`` builds a fresh, fully configured object (configure it with FALSY but
+    legal option values too: eos=0, flags False, costs/proportions 0.0, padding 0 - 'missing' is often confused
+    with 'falsy' when state is restored).  ``used(obj)``, if given, exercises an object once (so that lazily built
+    caches exist) before it is copied.  Module-only variants are skipped for other objects.
+
+      deepcopy / pickle / torch.save ....... the three routes through __reduce__/__getstate__/__setstate__
+      used+deepcopy ......................... copy of an object that has already been called (caches travel along)
+      eval+deepcopy ......................... (modules) a copy of a module in eval mode must still be in eval mode
+      state_dict ............................ (modules) fresh.load_state_dict(other.state_dict()), both from make()
+      state_dict-after-use .................. (modules) the receiving module was called BEFORE the load (stale
+                                              derived state), strict load of a same-configuration state dict
+      double-float .......................... (modules) .double() then .float() (buffers rebuilt through _apply)
+    """
+    import copy
+    import io
+    import pickle
+
+    kinds = set(kinds) if kinds is not None else None
+
+    def want(k):
+        return kinds is None or k in kinds
+
+    if want("deepcopy"):
+        yield "deepcopy", copy.deepcopy(make())
+    if want("pickle"):
+        yield "pickle", pickle.loads(pickle.dumps(make()))
+    if want("torch.save"):
+        buf = io.BytesIO()
+        torch.save(make(), buf)
+        buf.seek(0)
+        yield "torch.save", torch.load(buf, weights_only=False)
+    if used is not None and want("used+deepcopy"):
+        o = make()
+        used(o)
+        yield "used+deepcopy", copy.deepcopy(o)
+    if isinstance(make(), torch.nn.Module):
+        if want("eval+deepcopy"):
+            o = make()
+            o.eval()
+            c = copy.deepcopy(o)
+            if c.training or any(m.training for m in c.modules()):
+                raise GuardViolation("deepcopy of a module in eval mode is back in training mode")
+            c.train(make().training)
+            yield "eval+deepcopy", c
+        if want("state_dict"):
+            o = make()
+            o.load_state_dict(make().state_dict())
+            yield "state_dict", o
+        if used is not None and want("state_dict-after-use"):
+            o = make()
+            was = o.training
+            used(o)
+            o.eval()
+            with torch.no_grad():
+                used(o)
+            o.train(was)
+            o.load_state_dict(make().state_dict())
+            yield "state_dict-after-use", o
+        if want("double-float"):
+            o = make()
+            try:
+                o = o.double().float()
+            except Exception:  # noqa: BLE001 - a module without floating state has nothing to convert
+                o = None
+            if o is not None:
+                yield "double-float", o
